@@ -200,6 +200,21 @@ var classNames = []string{
 	"*int", "*chan", "*struct", "withChan", "withUnexported", "node", "badNode", "holder{chan}",
 	"any(nil)", "error(nil)", "error(errInt)", "fmt.Stringer(strStruct)", "interface{Foo()}(nil)",
 	"any(int)", "any(chan)", "any(map[[2]int]int)", "any([]string)", "[]any{chan}", "map[string]any{uintptr}",
+	"any(uintptr)", "any(strStruct)", "any(namedStruct)", "any(native.HTML)", "any(*int)", "any(func)", "any(time.Time)", "any([]byte)",
+}
+
+// nilClasses: values the catalogue does not hold — nil pointers, slices, maps, channels, functions
+// (the static type decides; the renderer must cope with the nil). Not among them: a nil pointer
+// to a type with value-receiver String/Error methods (`(*time.Time)(nil)`): Go itself panics in the
+// method wrapper — a panic of user code for a reason of the value, which C09 leaves to C05/C13.
+func nilClasses() []entry {
+	return []entry{
+		decl("(*int)(nil)", (*int)(nil)), decl("(*namedStruct)(nil)", (*namedStruct)(nil)), decl("(*ptrStr)(nil)", (*ptrStr)(nil)),
+		decl("[]int(nil)", []int(nil)), decl("[]byte(nil)", []byte(nil)),
+		decl("map[string]int(nil)", map[string]int(nil)), decl("map[[2]int]int(nil)", map[[2]int]int(nil)),
+		decl("(chan int)(nil)", (chan int)(nil)), decl("(func())(nil)", (func())(nil)), decl("[]any(nil)", []any(nil)),
+		decl("[]any{nil}", []any{nil}), decl("map[string]any{nil}", map[string]any{"a": nil}), decl("[]*int{nil}", []*int{nil}),
+	}
 }
 
 // the right-hand sides every left operand of `default` is paired with in the quick tier
@@ -461,7 +476,7 @@ func literalForms() []formSpec {
 func runForms(c *hx.Ctx) error {
 	res := c.Res
 	cat := catalogue()
-	classes := pick(cat, classNames)
+	classes := append(pick(cat, classNames), nilClasses()...)
 	rights := pick(cat, rightNames)
 	lefts := classes
 	if !c.Quick() {
